@@ -82,6 +82,7 @@ func (ex *Exec) staticCall(st *State, fr *Frame, in ssa.CallInstruction, callee 
 			ex.unsupported(st, "recursive call of %s without a contract", name)
 		}
 	}
+	u.inlined[name] = true
 	nf := &Frame{fn: callee, vals: map[ssa.Value]SVal{}, locals: map[string]SVal{}, variant: map[*ssa.BasicBlock][]*Term{}, call: in, contract: nil}
 	if len(args) != len(callee.Params) {
 		ex.unsupported(st, "arity mismatch inlining %s", name)
